@@ -3,11 +3,11 @@ Require Extraction.
 Require ExtrOcamlBasic.
 From Coq Require Import List NArith String.
 From TG.Gen Require Import GenTokens GenFoldKinds.
-From TG.Model Require Import Chars Tree TreeNav Folding DocComments SymbolMap Outline CoreAst OutlineIndex OutlineSpec.
+From TG.Model Require Import Chars Tree TreeNav Folding DocComments SymbolMap Outline CoreAst OutlineIndex OutlineSpec OutlineChildSpec.
 
 Extraction Language OCaml.
 Extraction "extract/outline_core.ml"
   sk_index sk_name all_syntax_kinds bytes tree_len
   folding_model extract_doc_comments extract_doc_comments_rowan
   run_ops document_symbol hover extract_symbol_signature goto_definition inlay_hint iter_symbols_in_file
-  mkWs oix oix_ops oi_bad oi_sm outline_of_ws ops_decls program_decls no_include.
+  mkWs oix oix_ops oi_bad oi_sm outline_of_ws ops_decls program_decls no_include decls_wf visitc_ws ops_cevs c_skipped.
